@@ -24,8 +24,9 @@ theorem inv_advance_pre (c : Cfg) (ar aq : Nat) (s : S) (h : Inv c ar aq s) (p :
     have h17 := h.k17 hcl hp
     have hq2 : fwdPhase p = false ∧ upPhase p = false ∧ p ≠ .End ∧ p ≠ .Retry := by
       cases p <;> simp [prePhase, fwdPhase, upPhase] at hq ⊢
+    have hnw : s.phase ≠ .WaitNotify := by intro hh; rw [hh] at hp; simp [prePhase] at hp
     obtain ⟨k0, k1, k2, k3, k4, k5, k6, k7, k8, k9, k10, k11, k12, k13, k14, k15, k16, k17, k18, k19, k20, k21, k22, k23, k24, k25, k26, k27, k28, k29, k30, k31, k32, k33⟩ := h
-    refine ⟨k0, k1, k2, k3, k4, k5, k6, k7, ?_, k9, k10, k11, k12, k13, k14, ?_, ?_, ?_, ?_, ?_, k20, k21, k22, ?_, k24, k25, ?_, ?_, ?_, ?_, ?_, k31, ?_, (fun hh => absurd hh (by simp [hcl]))⟩
+    refine ⟨k0, k1, k2, k3, k4, k5, k6, k7_frame k7 hcl hnw rfl rfl, ?_, k9, k10, k11, k12, k13, k14, ?_, ?_, ?_, ?_, ?_, k20, k21, k22, ?_, k24, k25, ?_, ?_, ?_, ?_, ?_, k31, ?_, (fun hh => absurd hh (by simp [hcl]))⟩
     · intro _
       have hp0 : s.pass = 0 := h17.2.2.2.2.2.2.2.2.2
       exact ⟨by show s.pass ≤ 1; omega, Or.inl hp0⟩
@@ -55,6 +56,7 @@ theorem inv_work_pre (c : Cfg) (ar aq : Nat) (s : S) (h : Inv c ar aq s) (hrun :
     Inv c ar aq (finishPhase c s) := by
   apply finish_inv c ar aq s h hrun
   · intro hh; rcases hp with hp | hp | hp <;> (rw [hp] at hh; cases hh)
+  · intro hh; rcases hp with hp | hp | hp <;> (rw [hp] at hh; cases hh)
   · intro _ _
     apply inv_advance_pre c ar aq s h
     · rcases hp with hp | hp | hp <;> simp [hp, prePhase]
@@ -73,7 +75,8 @@ theorem inv_work_chooseHost (c : Cfg) (ar aq : Nat) (s : S) (h : Inv c ar aq s) 
   have hpre : prePhase s.phase = true := by simp [hp, prePhase]
   have h17 := h.k17 hcl hpre
   obtain ⟨hup, hrs, hst, hurr, hur, hpt, hgt, hrq, hge, hps⟩ := h17
-  obtain ⟨hsr, hdir⟩ := h.k7 hcl
+  have hsr := (h.k7 hcl).1
+  have hdir : s.direct = false := not_direct_of_phase h.k7 hcl (by rw [hp]; decide)
   have hpd : s.procDone = false := by
     cases hh : s.procDone with
     | false => rfl
@@ -139,7 +142,7 @@ theorem inv_work_chooseHost (c : Cfg) (ar aq : Nat) (s : S) (h : Inv c ar aq s) 
         subst hs1
         have hdr : s.downReset = false := hdr
         obtain ⟨k0, k1, k2, k3, k4, k5, k6, k7, k8, k9, k10, k11, k12, k13, k14, k15, k16, k17, k18, k19, k20, k21, k22, k23, k24, k25, k26, k27, k28, k29, k30, k31, k32, k33⟩ := h
-        refine ⟨k0, k1, k2, k3, k4, k5, k6, k7, ?_, hb1.k9, k10, k11, k12, ?_, hb1.k14, ?_, ?_, ?_, ?_, ?_, k20, k21, k22, ?_, ?_, ?_, ?_, ?_, ?_, ?_, ?_, ?_, ?_, (fun hh => absurd hh (by simp [hcl]))⟩
+        refine ⟨k0, k1, k2, k3, k4, k5, k6, k7_intro hsr hdir, ?_, hb1.k9, k10, k11, k12, ?_, hb1.k14, ?_, ?_, ?_, ?_, ?_, k20, k21, k22, ?_, ?_, ?_, ?_, ?_, ?_, ?_, ?_, ?_, ?_, (fun hh => absurd hh (by simp [hcl]))⟩
         · intro _; exact ⟨by show s.pass ≤ 1; omega, Or.inl hps⟩
         · intro hh; simp [hcl] at hh
         · intro _ hh; simp [hp, Phase.next, upPhase] at hh
